@@ -44,6 +44,16 @@ def check(chk):
     # ... and the order of the list itself: every registration is followed by the priority sort (shared with C01)
     from sa.rules.c01 import _sort_rule
     _sort_rule(chk, ah_)
+    # a wait that was released is forgotten: the relay player clears the waits it holds for a context and then drops its record of them (a
+    # second clear of the same wait raises "Not locked" inside the mode's stop and the wait of the current queue event is never released)
+    qrc = chk.repo.func("mpf/config_players/queue_relay_player.py", "QueueRelayPlayer.clear_context")
+    chk.analysed(qrc)
+    qcfg = qrc.cfg()
+    rs_ = [n.id for n, c in qcfg.calls_named("_reset_instance_dict") if c.args and src(c.args[0]) == "context"]
+    cl_ = [n.id for n, c in qcfg.calls_named("clear") if src(c.func.value) == "queue"]
+    w_ = qcfg.must_pass(qcfg.entry.id, rs_) if rs_ else [qcfg.entry.id]
+    chk.ob("PAIR-2", "the relay player forgets the waits of a context on every path after releasing them", bool(cl_) and w_ is None, qrc.where(), construct=qrc.ident,
+           text="released relay waits forgotten")
     _table0(chk)
     _type1(chk)
 
@@ -776,6 +786,7 @@ def battery():
     MC = "mpf/core/mode_controller.py"
     G = "mpf/modes/game/code/game.py"
     return [
+        M("relay player keeps the waits it released", "mpf/config_players/queue_relay_player.py", "            queue.clear()\n\n        self._reset_instance_dict(context)\n", "            queue.clear()\n", "PAIR-2"),
         M("stop callbacks removed from the list while it is walked", "mpf/core/mode.py", "        for callback in self.stop_callbacks:\n            callback()\n\n        self.stop_callbacks = []\n", "        for callback in self.stop_callbacks:\n            self.stop_callbacks.remove(callback)\n            callback()\n", ("ITERMUT-0", "PAIR-2")),
         M("handler list re-sorted only when the raw priority says so", EV, "        if len(self.registered_handlers[event]) > 1:\n            self.registered_handlers[event].sort(key=lambda x: x.priority, reverse=True)", "        if len(self.registered_handlers[event]) > 1 and self.registered_handlers[event][-2].priority < priority:\n            self.registered_handlers[event].sort(key=lambda x: x.priority, reverse=True)", "SORT-1"),
         M("queue runner returns without completion when the handlers vanished", EV, "        if event not in self.registered_handlers:\n            if callback:\n                callback(**kwargs)\n            return\n\n        # Now let's call the handlers one-by-one, including any kwargs\n        for handler in self.registered_handlers[event][:]:\n            # use slice above so we don't process new handlers that came\n            # in while we were processing previous handlers\n\n            # merge the post's kwargs with the registered handler's kwargs\n            # in case of conflict, handlers kwargs will win\n            merged_kwargs = dict(list(kwargs.items()) + list(handler.kwargs.items()))", "        if event not in self.registered_handlers:\n            return\n\n        # Now let's call the handlers one-by-one, including any kwargs\n        for handler in self.registered_handlers[event][:]:\n            # use slice above so we don't process new handlers that came\n            # in while we were processing previous handlers\n\n            # merge the post's kwargs with the registered handler's kwargs\n            # in case of conflict, handlers kwargs will win\n            merged_kwargs = dict(list(kwargs.items()) + list(handler.kwargs.items()))", "DOM-4"),
